@@ -66,6 +66,8 @@ impl LockFile {
 	/// Acquires the lock, returning an error if the database is already in use
 	#[cfg(not(target_arch = "wasm32"))]
 	pub fn acquire(&mut self) -> Result<()> {
+		#[cfg(surrealkv_verif)]
+		crate::verif::gate("lock_try", &[]);
 		// Try to open the lock file with create flag
 		let file = OpenOptions::new()
 			.read(true)
@@ -92,14 +94,24 @@ impl LockFile {
 			.map_err(|e| Error::Io(Arc::new(e)))?;
 
 		self.file = Some(file);
+		#[cfg(surrealkv_verif)]
+		crate::verif::gate("lock_acquired", &[]);
 		Ok(())
 	}
 
 	/// Releases the lock
 	#[cfg(not(target_arch = "wasm32"))]
 	pub fn release(&mut self) -> Result<()> {
+		#[cfg(surrealkv_verif)]
+		let verif_held = self.file.is_some();
 		if let Some(_file) = self.file.take() {
+			#[cfg(surrealkv_verif)]
+			crate::verif::gate("lock_release", &[]);
 			// File will be closed when dropped
+		}
+		#[cfg(surrealkv_verif)]
+		if verif_held {
+			crate::verif::gate("lock_released", &[]);
 		}
 		Ok(())
 	}
